@@ -45,3 +45,21 @@ func verifInEnumF(s string, enum []string) bool {
 	}
 	return false
 }
+
+// Verif_C08_RpmOnlyTypesStayInRpm: ghost, doc, licence/license and readme entries
+// are planned for rpm only, whatever their per-entry packager tag says.
+func Verif_C08_RpmOnlyTypesStayInRpm() {
+	mt := time.Unix(1700000000, 0).UTC()
+	src := models.AddFile("/s/f", []byte("x"), 0o644, mt)
+	typ := []string{TypeRPMGhost, TypeRPMDoc, TypeRPMLicence, TypeRPMLicense, TypeRPMReadme}[v.NondetChoice("type", 5)]
+	packager := []string{"deb", "apk", "archlinux", "ipk", "rpm"}[v.NondetChoice("packager", 5)]
+	tag := v.NondetString("tag", 9)
+	res, err := PrepareForPackager(Contents{{Source: src, Destination: "/usr/share/doc/x", Type: typ, Packager: tag}}, 0o022, packager, false, mt)
+	v.Reach("C08.rpmonly.ran")
+	v.Assert(err == nil, "rpm-only-entry-plans")
+	if packager != "rpm" {
+		v.Assert(len(res) == 0, "rpm-only-entry-absent-from-other-formats")
+	} else if tag == "" || tag == "rpm" {
+		v.Assert(len(res) > 0, "rpm-only-entry-present-in-rpm")
+	}
+}
